@@ -608,7 +608,7 @@ def gen_op(rng, world, sim, n):
         if r < 0.45:
             files, used = [], set()
             for _ in range(rng.randint(1, 2)):
-                fmt = rng.choice(["naunet", "kida", "umist", "krome"])
+                fmt = rng.choice(["naunet", "kida", "umist", "krome", "uclchem"])
                 ok = [ar for ar in spec["pool"] if ar["uid"] not in used and fmt in W.formats_for(spec["cfg"], ar)]
                 if not ok:
                     continue
@@ -644,7 +644,7 @@ def gen_op(rng, world, sim, n):
         ar, fmts = rng.choice(cands)
         return {"op": kind, "net": n, "uid": ar["uid"], "fmt": rng.choice(fmts)}
     if kind == "add_file":
-        fmt = rng.choice(["naunet", "naunet", "kida", "umist", "krome"])
+        fmt = rng.choice(["naunet", "naunet", "kida", "umist", "krome", "uclchem"])
         ok = [ar for ar in unused if fmt in W.formats_for(cfgname, ar)]
         if not ok:
             fmt = "naunet"
